@@ -18,8 +18,9 @@
    "dynamic"; bodies read with JustAttributes contain no dynamic block. *)
 From HclV Require Import Dec.Spec Dec.Decode.
 From HclV Require Import Base.Prelude Cty.Values Cty.Convert Cty.Ops Eval.Impl.
+From HclV Require Import Eval.Vars Eval.VarsProofs.
 From HclV Require Import Dyn.Expand Dyn.Unroll Dyn.CtxEquivProofs Dyn.ExpandProofs Dyn.ExpandFactsProofs
-  Dyn.DecodeBridge.
+  Dyn.DecodeBridge Dyn.ExpandVarsProofs.
 Open Scope Z_scope.
 
 (* ---- the README's equation --------------------------------------------------------------------- *)
@@ -326,3 +327,76 @@ Example C18_example_hcldec_nested_error :
   decode_hcldec_errs ex_spec (inl (Expand b ex_ctx)) [] = true
   /\ decode_hcldec_errs ex_spec (inr (unroll b ex_ctx)) [] = true.
 Proof. split; vm_compute; reflexivity. Qed.
+
+(* ---- the variables reported for expansion are sufficient to perform it ----------------------------------- *)
+(* [walk_vars false S None b]: the root names dynblock.ExpandVariablesHCLDec reports for the
+   body b under the schemata S; [walk_vars true …]: those of VariablesHCLDec (model of
+   WalkVariablesNode.Visit + walkVariablesWithHCLDec in Dyn/Expand.v, compared with the
+   code on every generated case).  [same_funcs c c']: every function name resolves alike;
+   [agree_names l c c']: every name of l resolves alike (value found, or not found with the
+   "Unknown variable" / "Variables not allowed" flag); [body_keys_ok b]: the parser's
+   guarantee about object-constructor keys, for every expression of the body (the side
+   condition of C07_coincidence). *)
+Theorem C18_expand_vars_sufficient :
+  forall S b c1 c2 rho,
+    body_keys_ok b = true ->
+    same_funcs c1 c2 ->
+    agree_names (walk_vars false S None b) c1 c2 ->
+    observe_x S rho (Expand b c1) = observe_x S rho (Expand b c2).
+Proof. exact expand_vars_sufficient. Qed.
+Print Assumptions C18_expand_vars_sufficient.
+
+(* a context pruned to the reported roots expands to the same content, and decodes (hcldec
+   model) to the same value, diagnostics and error-ness *)
+Theorem C18_expand_pruned_context :
+  forall S b c rho,
+    body_keys_ok b = true ->
+    observe_x S rho (Expand b (prune (walk_vars false S None b) c)) = observe_x S rho (Expand b c).
+Proof. exact expand_pruned_context. Qed.
+Print Assumptions C18_expand_pruned_context.
+
+Theorem C18_expand_decode_pruned_context :
+  forall (s : spec) b c rho,
+    body_keys_ok b = true ->
+    decode_hcldec_all s (inl (Expand b (prune (walk_vars false (sch_of_spec s) None b) c))) rho
+    = decode_hcldec_all s (inl (Expand b c)) rho.
+Proof. exact expand_decode_pruned_context. Qed.
+Print Assumptions C18_expand_decode_pruned_context.
+
+(* all reported variables (expansion and content): sufficient for schemata without bodies
+   read by JustAttributes ... *)
+Theorem C18_all_vars_sufficient_partial :
+  forall S b c1 c2 rho1 rho2,
+    no_just S = true ->
+    body_keys_ok b = true ->
+    same_funcs c1 c2 -> same_funcs rho1 rho2 ->
+    agree_names (walk_vars false S None b) c1 c2 ->
+    agree_names (walk_vars true S None b) rho1 rho2 ->
+    observe_x S rho1 (Expand b c1) = observe_x S rho2 (Expand b c2).
+Proof. exact all_vars_sufficient_partial. Qed.
+Print Assumptions C18_all_vars_sufficient_partial.
+
+(* ... and NOT in general: known finding reported-variables-omit-blockattrs-body *)
+Theorem C18_all_vars_sufficient_refuted :
+  exists S b c rho1 rho2,
+    S = Sch [] [(vx_a, 0, SJust)]
+    /\ b = [DBlock vx_a [] [DAttr vx_u (EScopeTrav vx_foo [])]]
+    /\ body_keys_ok b = true
+    /\ walk_vars true S None b = []
+    /\ same_funcs rho1 rho2
+    /\ observe_x S rho1 (Expand b c) <> observe_x S rho2 (Expand b c).
+Proof. exact all_vars_sufficient_refuted. Qed.
+Print Assumptions C18_all_vars_sufficient_refuted.
+
+(* the scoping fact the two seeded walker bugs violated: the own iterator is not bound in
+   for_each, so a root of that name is reported, and needed *)
+Theorem C18_own_iterator_in_for_each_is_needed :
+  exists S b c1 c2 rho,
+    S = Sch [] [(vx_a, 0, Sch [] [])]
+    /\ b = [DDynamic vx_a (EScopeTrav vx_a []) None [] []]
+    /\ walk_vars false S None b = [vx_a]
+    /\ same_funcs c1 c2
+    /\ (forall x, x <> vx_a -> lookup_var c1 x false = lookup_var c2 x false)
+    /\ observe_x S rho (Expand b c1) <> observe_x S rho (Expand b c2).
+Proof. exact own_iterator_in_for_each_is_needed. Qed.
+Print Assumptions C18_own_iterator_in_for_each_is_needed.
